@@ -184,8 +184,28 @@ func (ex *Exec) coverEntry(st *State) {
 	ex.obs = append(ex.obs, ob)
 }
 
+// coverPoint: a reachability guard inside the function. All guards of one group (a loop head,
+// "some return") are alternatives: the group is vacuous only when every member's assumptions
+// are refuted, i.e. no explored path reaches that point with consistent assumptions.
+func (ex *Exec) coverPoint(st *State, group string, descr string) {
+	if ex.coverCount == nil {
+		ex.coverCount = map[string]int{}
+	}
+	ex.coverCount[group]++
+	if ex.coverCount[group] > 8 {
+		return
+	}
+	ob := &Obligation{Name: fmt.Sprintf("%s/cover#%s.%d", ex.sel, group, ex.coverCount[group]), Kind: "cover", Func: ex.sel, PC: append([]Term(nil), st.pc...), Goal: tFalse, Decls: ex.d, Cover: true,
+		Group: ex.sel + "/cover#" + group, Descr: descr}
+	if ex.con != nil {
+		ob.Props = ex.con.Props
+	}
+	ex.obs = append(ex.obs, ob)
+}
+
 func (ex *Exec) checkPost(st *State, results []Value) {
 	ex.returns++
+	ex.coverPoint(st, "return", "vacuity guard: some path reaches a return with satisfiable assumptions")
 	fn := ex.fn
 	fr := &Frame{fn: fn, env: map[ssa.Value]Value{}}
 	c := &SpecCtx{ex: ex, st: st, old: ex.entry, binds: map[string]TT{}, bound: map[string]string{}, pkg: pkgOf(fn), frame: nil}
